@@ -138,6 +138,98 @@ Section AssemblyBalance.
     - unfold rows_plain in Hin'. rewrite BalancePrint.plain_rows_are_nodes in Hin' by assumption. exact Hin'.
   Qed.
 
+  (** ** after fix 3cc3ec3, for EVERY log (a logged name may be a path-prefix of
+         another): in every mode the visible category paths, each taken once
+         with the amount of the row in which its last segment is printed, are
+         the non-empty prefixes of the logged paths, each once, in increasing
+         order, each with an amount linked by Go-equalities ([==]) to the
+         specified total of that path - joining rows hides no amount *)
+  Theorem balance_rows_show_every_total : forall (es : entries) (pi : list bytes -> list bytes) (collapse collapse_last : bool),
+    (forall l, Permutation (pi l) l) ->
+    let shown := shown_paths NM (balance_rows NM pi collapse collapse_last (built es)) in
+    NoDup (map fst shown) /\
+    StronglySorted (fun p q => path_ltb p q = true) (map fst shown) /\
+    (forall p y, In (p, y) shown ->
+       p <> [] /\ (exists f q, In (f, q) es /\ is_prefix_path p (segs f) = true) /\
+       go_eq_chain NM y (total_at NM es p)) /\
+    (forall p, p <> [] -> (exists f q, In (f, q) es /\ is_prefix_path p (segs f) = true) ->
+       exists y, In (p, y) shown /\ go_eq_chain NM y (total_at NM es p)).
+  Proof.
+    intros es pi collapse cl Hpi shown. subst shown.
+    destruct (segments_slash_free NM es pi Hpi) as [_ Hsf].
+    destruct (ordered_paths_spec NM es pi Hpi) as (Hnd & Hsorted & Hspec).
+    pose proof (BalancePrint.balance_rows_show_every_total NM pi collapse cl (built es) Hsf) as HF.
+    assert (Hfst : map fst (shown_paths NM (balance_rows NM pi collapse cl (built es))) =
+                   map fst (tree_paths NM (order_tree NM pi (built es)))).
+    { clear - HF. induction HF as [|a c l m [Hac _] _ IH]; [reflexivity|].
+      cbn [map]. rewrite Hac, IH. reflexivity. }
+    rewrite Hfst. split; [exact Hnd|]. split; [exact Hsorted|]. split.
+    - intros p y Hin.
+      destruct (BalancePrint.Forall2_In_l _ _ _ _ HF Hin) as [[q x] [Hq [Hpath Hamt]]].
+      cbn [fst snd] in Hpath, Hamt. subst q.
+      apply Hspec in Hq. destruct Hq as (Hne & Hex & Hx). subst x. repeat split; assumption.
+    - intros p Hne Hex.
+      assert (Hq : In (p, total_at NM es p) (tree_paths NM (order_tree NM pi (built es)))).
+      { apply Hspec. repeat split; assumption. }
+      destruct (BalancePrint.Forall2_In_r _ _ _ _ HF Hq) as [[q y] [Hy [Hpath Hamt]]].
+      cbn [fst snd] in Hpath, Hamt. subst q. exists y. split; assumption.
+  Qed.
+
+  (** in particular a row whose label joins several segments: its amount is
+      linked by Go-equalities to the specified total of EVERY category path on
+      the joined part; equal or Go-equal to it when [==] is transitive *)
+  Theorem balance_joined_row_totals : forall (es : entries) (pi : list bytes -> list bytes) (collapse collapse_last : bool),
+    (forall l, Permutation (pi l) l) ->
+    forall pp own y,
+      In (pp, own, y) (decode_own NM (balance_rows NM pi collapse collapse_last (built es))) ->
+      forall o, In o (BalancePrintSpec.prefixes own) ->
+        go_eq_chain NM y (total_at NM es (pp ++ o)) /\
+        (go_eq_transitive NM -> y = total_at NM es (pp ++ o) \/ t_eqb NM y (total_at NM es (pp ++ o)) = true).
+  Proof.
+    intros es pi collapse cl Hpi pp own y Hrow o Ho.
+    destruct (balance_rows_show_every_total es pi collapse cl Hpi) as (_ & _ & H & _).
+    assert (Hin : In (pp ++ o, y) (shown_paths NM (balance_rows NM pi collapse cl (built es)))).
+    { unfold shown_paths. apply in_flat_map. exists (pp, own, y). split; [exact Hrow|].
+      apply in_map_iff. exists o. split; [reflexivity|exact Ho]. }
+    destruct (H _ _ Hin) as (_ & _ & Hc). split; [exact Hc|].
+    intros Htr. apply BalancePrint.go_eq_chain_trans; assumption.
+  Qed.
+
+  (** [balance_rows_amounts] without [prefix_free], up to Go-equality: every row
+      of every mode, joined inner rows included, names a logged category path
+      and carries an amount linked by Go-equalities to its specified total *)
+  Theorem balance_rows_amounts_any_log : forall (es : entries) (pi : list bytes -> list bytes) (collapse collapse_last : bool),
+    (forall l, Permutation (pi l) l) ->
+    forall p y lf, In (p, y, lf) (decode NM (balance_rows NM pi collapse collapse_last (built es))) ->
+      p <> [] /\ (exists f q, In (f, q) es /\ is_prefix_path p (segs f) = true) /\
+      go_eq_chain NM y (total_at NM es p) /\
+      (go_eq_transitive NM -> y = total_at NM es p \/ t_eqb NM y (total_at NM es p) = true).
+  Proof.
+    intros es pi collapse cl Hpi p y lf Hin.
+    destruct (balance_rows_show_every_total es pi collapse cl Hpi) as (_ & _ & H & _).
+    destruct (H p y (BalancePrint.decode_in_shown NM _ _ _ _ Hin)) as (Hne & Hex & Hc).
+    repeat split; try assumption.
+    intros Htr. apply BalancePrint.go_eq_chain_trans; assumption.
+  Qed.
+
+  (** the leaves of every log: all four flag settings show the same leaf paths
+      with Go-equal amounts; with the same amounts where Go-equal amounts are
+      equal (exact numbers) - [prefix_free] is not needed for this any more *)
+  Theorem balance_modes_same_leaves_any_log : forall (es : entries) (pi : list bytes -> list bytes),
+    (forall l, Permutation (pi l) l) ->
+    let L := tree_leaves NM (order_tree NM pi (built es)) in
+    (forall collapse collapse_last,
+        Forall2 (same_path_go_equal NM)
+                (leaf_rows NM (balance_rows NM pi collapse collapse_last (built es))) L) /\
+    (go_eq_is_eq NM -> forall collapse collapse_last,
+        leaf_rows NM (balance_rows NM pi collapse collapse_last (built es)) = L).
+  Proof.
+    intros es pi Hpi L. subst L.
+    destruct (segments_slash_free NM es pi Hpi) as [_ Hsf]. split.
+    - intros collapse cl. apply BalancePrint.balance_rows_leaves_go_equal, Hsf.
+    - intros Heq collapse cl. apply BalancePrint.balance_rows_leaves_exact; assumption.
+  Qed.
+
   (** ** from the days of the log to the chunks the reporter writes at Flush *)
   Theorem balance_report_rows : forall (c : rconfig) (perms : nat -> list bytes -> list bytes)
       (pi : list bytes -> list bytes) (lns : list (lognode NM)),
